@@ -1060,8 +1060,8 @@ class Engine:
         if d is not None and (self.ast.body_of(d) is not None or d.get('explicitlyDefaulted') or d.get('isImplicit')):
             if d['kind'] == 'CXXMethodDecl':
                 obj = self.ev(args[0], st, fr)
-                if self.ast.body_of(d) is None:
-                    # defaulted / implicit assignment operator
+                if self.ast.body_of(d) is None or (d.get('name') == 'operator=' and (d.get('explicitlyDefaulted') or d.get('isImplicit'))):
+                    # defaulted / implicit assignment operator (member-wise, whether or not clang synthesised a body)
                     return self.models.default_assign(st, obj, args[1], n, fr)
                 if isinstance(obj, Closure):
                     return self.call_closure(obj, args[1:], st, fr, n)
